@@ -105,8 +105,9 @@ def judge(ctx, op, src, out, fmap, norm, cond, shift, detail):
     # ... and the path object itself agrees with its segments: its end points are those of its first and last
     # segment, and a closed path is still closed
     try:
-        st, en, was_closed = out.start, out.end, src.isclosed()
-        now_closed = out.isclosed()
+        # (isclosed() asserts continuity: only continuous paths are asked)
+        st, en, was_closed = out.start, out.end, src.iscontinuous() and src.isclosed()
+        now_closed = was_closed and out.iscontinuous() and out.isclosed()
     except Exception as e:
         ctx.violation('%s/Path/endpoints-raise' % op, 'start/end/isclosed() of the result raised %s' % type(e).__name__, detail)
         return False
